@@ -16,7 +16,7 @@ pub fn run(ctx: &Ctx, rep: &mut Report) {
         }
     }
     // batch context: the altered member sits inside a batch (first / last / the largest member)
-    let nb = if ctx.thorough() { 300 } else { 40 };
+    let nb = if ctx.thorough() { 1500 } else { 40 };
     for b in 0..nb {
         id += 1;
         if ctx.mine(id) {
